@@ -50,7 +50,7 @@ _STATE = {"events": [], "active": False, "installed": False, "canary": None, "di
 
 
 def budget(tier):
-    return 10000 if tier == "quick" else 80000
+    return 20000 if tier == "quick" else 80000
 
 
 def _hook(event, args):
